@@ -109,13 +109,27 @@ example : (run Proc.init [.newEnv ⟨default, 0, ["if"], ["upcase"]⟩,
        some ⟨default, 1, some ⟨default, 2, [], []⟩⟩, none, some ⟨default, 0, some ⟨default, 0, [], ["upcase"]⟩⟩] := by
   decide +kernel
 
+/-- **`liquid.Template()` never hands out another configuration's environment**: for every sequence of
+calls with any argument sets, interleaved in any order and with more than ten live configurations (so
+with evictions from the 10-entry cache), the k-th call gets an environment built from exactly the k-th
+call's arguments. -/
+theorem implicit_env_isolation (ks : List ImplicitCfg) : implicitCalls ks = ks := by
+  have := memo_transparent (fun (a b : ImplicitCfg) => a == b) (fun k => k)
+    (by intro a b h; simpa using h) 10 ks
+  simpa [implicitCalls] using this
+
+/-- … and the cache stays within its ten entries -/
+theorem implicit_env_bounded (ks : List ImplicitCfg) :
+    (runCalls (fun (a b : ImplicitCfg) => a == b) (fun k => k) (empty 10) ks).1.entries.length ≤ 10 :=
+  memo_bounded _ _ 10 ks
+
 /-! ## the hypotheses hold of this tree (regenerated from the source on every run) -/
 section tables
 open LiquidVerif.Gen.C11
 
-def pinnedPatternNoComments : String := "(?P<RAW>Ts0-?\\s*raw\\s*(?P<rsr>-?)Te0(?P<raw>.*?)Ts0-?\\s*endraw\\s*(?P<rsr_e>-?)Te0)|(?P<DOC>Ts0-?\\s*doc\\s*(?P<lsd>-?)Te0(?P<doc>.*?)Ts0-?\\s*enddoc\\s*(?P<rsd>-?)Te0)|(?P<output>Ss0-?\\s*(?P<stmt>.*?)\\s*(?P<rss>-?)Se0)|(?P<TAG>Ts0-?(?P<pre>\\s*(?P<name>#|\\w*)\\s*)(?P<expr>.*?)\\s*(?P<rst>-?)Te0)|(?P<content>.+?(?=((Ts0|Ss0)(?P<rstrip>-?))|\\Z))"
+def pinnedPatternNoComments : String := "(?P<RAW>Ts0-?\\s*raw\\s*(?P<rsr>-?)Te0(?P<raw>.*?)Ts0-?\\s*endraw\\s*(?P<rsr_e>-?)Te0)|(?P<DOC>Ts0-?\\s*doc\\s*(?P<lsd>-?)Te0(?P<doc>.*?)Ts0-?\\s*enddoc\\s*(?P<rsd>-?)Te0)|(?P<output>Ss0-?\\s*(?P<stmt>.*?)\\s*(?P<rss>-?)Se0)|(?P<TAG>Ts0-?(?P<pre>\\s*(?P<name>(?!Te0)#|(?:(?!Te0)\\w)*)\\s*)(?P<expr>.*?)\\s*(?P<rst>-?)Te0)|(?P<content>.+?(?=((Ts0|Ss0)(?P<rstrip>-?))|\\Z))"
 
-def pinnedPatternComments : String := "(?P<RAW>Ts0-?\\s*raw\\s*(?P<rsr>-?)Te0(?P<raw>.*?)Ts0-?\\s*endraw\\s*(?P<rsr_e>-?)Te0)|(?P<DOC>Ts0-?\\s*doc\\s*(?P<lsd>-?)Te0(?P<doc>.*?)Ts0-?\\s*enddoc\\s*(?P<rsd>-?)Te0)|(?P<COMMENT>Cs0(?P<comment>.*?)(?P<rsc>-?)Ce0)|(?P<output>Ss0-?\\s*(?P<stmt>.*?)\\s*(?P<rss>-?)Se0)|(?P<TAG>Ts0-?(?P<pre>\\s*(?P<name>#|\\w*)\\s*)(?P<expr>.*?)\\s*(?P<rst>-?)Te0)|(?P<content>.+?(?=((Ts0|Ss0|Cs0)(?P<rstrip>-?))|\\Z))"
+def pinnedPatternComments : String := "(?P<RAW>Ts0-?\\s*raw\\s*(?P<rsr>-?)Te0(?P<raw>.*?)Ts0-?\\s*endraw\\s*(?P<rsr_e>-?)Te0)|(?P<DOC>Ts0-?\\s*doc\\s*(?P<lsd>-?)Te0(?P<doc>.*?)Ts0-?\\s*enddoc\\s*(?P<rsd>-?)Te0)|(?P<COMMENT>Cs0(?P<comment>.*?)(?P<rsc>-?)Ce0)|(?P<output>Ss0-?\\s*(?P<stmt>.*?)\\s*(?P<rss>-?)Se0)|(?P<TAG>Ts0-?(?P<pre>\\s*(?P<name>(?!Te0)#|(?:(?!Te0)\\w)*)\\s*)(?P<expr>.*?)\\s*(?P<rst>-?)Te0)|(?P<content>.+?(?=((Ts0|Ss0|Cs0)(?P<rstrip>-?))|\\Z))"
 
 /-- `get_lexer` is memoised on exactly the free inputs of `compile_liquid_rules`, passes them on in
 order, and `Environment.tokenizer` hands it the environment's six delimiter attributes in that order:
